@@ -6,10 +6,17 @@ use serde_json::{json, Value};
 use temporal_rs::options::*;
 use temporal_rs::*;
 
+fn nz(a: &Value) -> bool { a.get("nz").and_then(|b| b.as_bool()).unwrap_or(false) }
+/// the duration with every zero field handed over as -0.0
+fn arg_duration_nz(v: &Value) -> TemporalResult<Duration> {
+    let f = |k: &str| { let x = v.get(k).map(ff).unwrap_or(temporal_rs::primitive::FiniteF64::from(0i8)); if x.as_inner() == 0.0 { temporal_rs::primitive::FiniteF64::try_from(-0.0f64).expect("-0.0 is finite") } else { x } };
+    Duration::new(f("y"), f("mo"), f("w"), f("d"), f("h"), f("mi"), f("s"), f("ms"), f("us"), f("ns"))
+}
+fn recv_dur(a: &Value) -> TemporalResult<Duration> { if nz(a) { arg_duration_nz(&a["recv"]) } else { arg_duration(&a["recv"]) } }
 pub fn exec(op: &str, a: &Value) -> Option<Value> {
     let rel = |a: &Value| arg_relative(a.get("rel").unwrap_or(&Value::Null));
     Some(match op {
-        "Duration.new" => run(|| arg_duration(&a["dur"]), p_duration),
+        "Duration.new" => run(|| if nz(a) { arg_duration_nz(&a["dur"]) } else { arg_duration(&a["dur"]) }, p_duration),
         // a property bag: only the keys present are supplied ({} or [] = empty bag)
         "Duration.fromPartial" => run(|| { let p = &a["p"]; let g = |k: &str| p.get(k).map(ff);
             Duration::from_partial_duration(temporal_rs::partial::PartialDuration { years: g("y"), months: g("mo"), weeks: g("w"), days: g("d"), hours: g("h"), minutes: g("mi"),
@@ -18,13 +25,15 @@ pub fn exec(op: &str, a: &Value) -> Option<Value> {
             |d| json!({"y": js::big_f64(d.years.as_inner()), "mo": js::big_f64(d.months.as_inner()), "w": js::big_f64(d.weeks.as_inner()), "d": js::big_f64(d.days.as_inner())})),
         "TimeDuration.new" => run(|| { let d = &a["dur"]; TimeDuration::new(ff(&d["h"]), ff(&d["mi"]), ff(&d["s"]), ff(&d["ms"]), ff(&d["us"]), ff(&d["ns"])) },
             |d| json!({"h": js::big_f64(d.hours.as_inner()), "mi": js::big_f64(d.minutes.as_inner()), "s": js::big_f64(d.seconds.as_inner()), "ms": js::big_f64(d.milliseconds.as_inner()), "us": js::big_f64(d.microseconds.as_inner()), "ns": js::big_f64(d.nanoseconds.as_inner())})),
-        "Duration.negated" => run(|| Ok(arg_duration(&a["recv"])?.negated()), p_duration),
+        "Duration.negated" => run(|| Ok(recv_dur(a)?.negated()), p_duration),
         // the public unchecked constructor: a day count and a time part (the time part alone is validated by TimeDuration::new)
         "Duration.fromDayAndTime" => run(|| { let d = &a["dur"]; let t = TimeDuration::new(ff(&d["h"]), ff(&d["mi"]), ff(&d["s"]), ff(&d["ms"]), ff(&d["us"]), ff(&d["ns"]))?;
             Ok(Duration::from_day_and_time(ff(&d["d"]), &t)) }, p_duration),
         "Duration.timeInRange" => run(|| Ok(arg_duration(&a["recv"])?.is_time_within_range()), |b| json!(*b)),
-        "Duration.abs" => run(|| Ok(arg_duration(&a["recv"])?.abs()), p_duration),
-        "Duration.sign" => run(|| Ok(arg_duration(&a["recv"])?.sign()), |s| json!(*s as i8)),
+        "Duration.abs" => run(|| Ok(recv_dur(a)?.abs()), p_duration),
+        "Duration.sign" => run(|| { let d = recv_dur(a)?; let s = d.sign();
+            // (the zero test is the same fact seen through another accessor)
+            Ok((s, d.is_zero())) }, |(s, z)| if *z != (*s == Sign::Zero) { json!("is_zero disagrees with sign") } else { json!(*s as i8) }),
         "Duration.add" => run(|| arg_duration(&a["recv"])?.add(&arg_duration(&a["other"])?), p_duration),
         "Duration.subtract" => run(|| arg_duration(&a["recv"])?.subtract(&arg_duration(&a["other"])?), p_duration),
         "Duration.compare" => run(|| FS.with(|p| arg_duration(&a["recv"])?.compare_with_provider(&arg_duration(&a["other"])?, rel(a)?, p)), |o| p_ord(*o)),
